@@ -12,10 +12,19 @@
 (*   HashNameCaseSensitive  _hash_name() without .lower()                  *)
 (*   DictNoLenCheck         NocaseDict.__eq__ without the final len test   *)
 (*   DictOrdered            NocaseDict.__eq__ comparing items positionally *)
+(*   EqNameCasefold         _eq_name() with casefold() while _hash_name()  *)
+(*                          keeps lower(): "Straße" == "STRASSE", hashes   *)
+(*                          differ                                         *)
+(*   DictGetLookup          NocaseDict.__eq__ looking the key up with      *)
+(*                          other.get(key): a missing key is taken for an  *)
+(*                          item whose value is None                       *)
+(* Names are compared / hashed by lower() (= base b); NocaseDict matches    *)
+(* and hashes its keys by casefold() (= FoldOf(b)).                        *)
 (***************************************************************************)
 EXTENDS CimEqU
 
-CONSTANTS HashNameCaseSensitive, DictNoLenCheck, DictOrdered
+CONSTANTS HashNameCaseSensitive, DictNoLenCheck, DictOrdered,
+          EqNameCasefold, DictGetLookup
 
 EqOrder(k) ==
   CASE k = "InstanceName" -> << <<"nm", 2>>, <<"nm", 3>>, <<"nm", 1>>, <<"dict", 1>> >>
@@ -45,7 +54,8 @@ Chain(rs) == IF rs = <<>> THEN "T"
 B(x) == IF x THEN "T" ELSE "F"
 
 (* _eq_name: None-aware, .lower() *)
-ImplNameEq(x, y) == B(x.b = y.b)
+ImplNameEq(x, y) == IF EqNameCasefold THEN B(FoldOf(x.b) = FoldOf(y.b))
+                    ELSE B(x.b = y.b)
 
 RECURSIVE ImplEq(_, _), PyEq(_, _), ImplDictEq(_, _)
 
@@ -77,14 +87,16 @@ ImplSlotEq(ga, gb) ==
 ImplDictEq(ga, gb) ==
   LET per(i) ==
         IF DictOrdered
-        THEN IF i > Len(gb) \/ gb[i].key.b # ga[i].key.b THEN "F"
+        THEN IF i > Len(gb) \/ FoldOf(gb[i].key.b) # FoldOf(ga[i].key.b) THEN "F"
              ELSE LET r == IF IsNone(ga[i].n) \/ IsNone(gb[i].n)
                            THEN B(IsNone(ga[i].n) /\ IsNone(gb[i].n))
                            ELSE PyEq(ga[i].n, gb[i].n) IN
                   IF r = "E" THEN "F" ELSE r
-        ELSE LET m == {j \in 1..Len(gb) : gb[j].key.b = ga[i].key.b} IN
-             IF m = {} THEN "F"
-             ELSE LET o == gb[CHOOSE j \in m : TRUE].n
+        ELSE LET m == {j \in 1..Len(gb) :
+                          FoldOf(gb[j].key.b) = FoldOf(ga[i].key.b)} IN
+             IF m = {} /\ ~DictGetLookup THEN "F"   \* if key not in other
+             ELSE LET o == IF m = {} THEN None       \* other.get(key)
+                           ELSE gb[CHOOSE j \in m : TRUE].n
                       r == IF IsNone(ga[i].n) \/ IsNone(o)
                            THEN B(IsNone(ga[i].n) /\ IsNone(o))
                            ELSE PyEq(ga[i].n, o) IN
@@ -117,7 +129,8 @@ ImplHash(n, gtag, ptag) ==
         ELSE [i \in 1..Len(n.nm) |-> hname(n.nm[i])] \o n.at
   IN [t |-> n.k, g |-> gtag, p |-> ptag, s |-> payload,
       kids |-> UNION { { ImplHash(n.ch[g][i].n, ToString(g),
-                                  IF IsBag(n.k, g) THEN n.ch[g][i].key.b
+                                  IF IsBag(n.k, g)
+                                  THEN FoldOf(n.ch[g][i].key.b)
                                   ELSE ToString(i))
                          : i \in 1..Len(n.ch[g]) } : g \in 1..Len(n.ch) }]
 =============================================================================
